@@ -176,7 +176,7 @@ def run_e2e(ctx, binp, scen, name):
     if os.path.exists(op):
         st = [e for e in vlib.read_ndjson(op) if e["ev"] == "e2e-stall"]
         if st:
-            # the daemon stopped reading the frame socket (five consecutive items not taken within 2 s each)
+            # the daemon stopped reading the frame socket (ten consecutive items not taken within 2 s each)
             raise DaemonCrash("the daemon stopped reading the frame socket (connection %d, after %d bytes)\n%s"
                               % (st[0]["conn"], st[0]["sent"], st[0].get("log", "")[-1200:]), scen)
     if r.returncode != 0 and "panic:" in (r.stdout + r.stderr) and "goroutine" in (r.stdout + r.stderr):
